@@ -185,11 +185,9 @@ def handle : List String → String
     | _, _, _, _, _, _, _, _, _ => "bad-op"
   | _ => "bad-op"
 
-/-- counter-example lines replayed on the implementation on every run: the protocol form of
-    `Witness.wMixed` and `Witness.wStatus` (`minimum_length: -1`, body through `ReadFrom`) -/
-def witnessLines : List String := [
-  "C15 gzip - -1 c:*:* G 677a6970 0 ~ ~ 746578742f706c61696e3b20636861727365743d7574662d38 1 sContent-Length=35,rx68656c6c6f",
-  "C15 gzip - -1 c:*:* G 677a6970 0 ~ ~ 746578742f706c61696e3b20636861727365743d7574662d38 1 h404,rx68656c6c6f"
-]
+/-- counter-example lines replayed on the implementation on every run: none — the unchanged tree violates no
+    clause any more (the two `minimum_length: -1` scripts of Witness.lean are regression cases in
+    corpus/C15/regression-minlen-negative.txt and must pass) -/
+def witnessLines : List String := []
 
 end CaddyModel.C15
